@@ -65,4 +65,27 @@ PROPS["C03"] = {
     "level_note": "That the cookie was *issued* by this proxy rests on MAC unforgeability (C02). Nonce/PKCE binding is C05.",
 }
 
+PROPS["C02"] = {
+    "drivers": [MAIN],
+    "rule": "session cookies (unsplit and 3-part), session tickets (server-side store) and CSRF cookies issued by the real proxy for 3 "
+            "secret sizes; every single-position substitution (3 alternative characters incl. the lax-base64 siblings) of small cookies and "
+            "a stride over large ones, every truncation length (stride for large), extensions, all 6 field splices of two issued cookies, "
+            "timestamp edits and digit migration between value and timestamp, all permutations/drops/duplicates/swaps/recombinations of "
+            "split parts, cross-name and cross-secret transplants; each is loaded through SessionStore.Load / LoadCSRFCookie and the accept "
+            "bit (for tickets: the store key read) is compared with the model; non-trivial = every altered credential",
+    "assumptions": ["HMAC-SHA256 modelled as a function (table of true MACs); AES-CFB/GCM, msgpack and lz4 are not modelled: the model "
+                    "decides acceptance up to signature validation, the oracle compares the decoded session with the issued one",
+                    "opaqueness (last sentence of the property) is not a theorem: it is checked by a leak scan of cookie values and store "
+                    "entries (raw, base64- and hex-decoded views) and by trying to open store entries with key material found in the store"],
+    "trusted_base": ["Go's crypto/hmac, crypto/aes, crypto/cipher used by the driver to build the oracle tables"],
+    "level_text": "c02_accepted_has_valid_mac (for every presented string: accepted => field 3 decodes to the MAC of name++field1++field2), "
+                  "c02_accepted_alteration_is_issued, c02_mac_input_ambiguity (full characterisation of the unseparated-concatenation "
+                  "ambiguity, observation O1), c02_cross_name, c02_parts_order / c02_parts_gap (split cookies), c02_ticket_reads_only_valid "
+                  "and c02_ticket_session_from_store (store touched only for a validated ticket) are proved for all inputs of the Gallina "
+                  "model of Validate / loadCookie / decodeTicketFromRequest / Manager.Load; acceptance is compared with the real stores on "
+                  "systematic alterations of issued credentials on every run.",
+    "level_note": "_partial: confidentiality (opaqueness) rests on AES, which is modelled, and is checked by leak scans only; 'nothing the proxy "
+                  "did not produce is accepted' is proved up to MAC unforgeability (stated as the MAC-validity conclusion of the theorem).",
+}
+
 NOT_APPLICABLE = {}
